@@ -74,9 +74,15 @@ def main():
 
     # ------------------------------------------------------- sampled systems
     nsys = 6 if ck.thorough else 2
-    for s in range(nsys):
-        Nm = int(rng.randint(2, 4))
-        ag, ta = T.build_aggregate(qr, rng, Nm, Nt=200, dt=1.0)
+    # sites that share bath objects in every pattern (all distinct, all the
+    # same, returning to an earlier one)
+    patterns = [None, None, [0, 1, 0], [0, 0, 0], [0, 1, 1, 0], [0, 1, 2, 1]]
+    sysl = [(s, None) for s in range(nsys)] + \
+        [(nsys + i, p) for i, p in enumerate(patterns[2:] if ck.thorough
+                                             else patterns[2:3])]
+    for s, share in sysl:
+        Nm = len(share) if share else int(rng.randint(2, 4))
+        ag, ta = T.build_aggregate(qr, rng, Nm, Nt=200, dt=1.0, share=share)
         ham = ag.get_Hamiltonian()
         n = ham.dim
         A0 = rng.randn(n, n) + 1j * rng.randn(n, n)
@@ -87,7 +93,7 @@ def main():
                            ("standard_Redfield", True),
                            ("Lindblad", False)):
             rp = dict(kind="system", seed=ck.seed, system=s, N=Nm,
-                      theory=theory, td=td)
+                      theory=theory, td=td, shared_baths=share)
             with ck.guarded("forms-agree", theory, rp, rp):
                 if theory == "Lindblad":
                     ops, rates = [], []
